@@ -213,6 +213,48 @@ fn run_art(c: &ArtCase) -> Outcome {
                     }
                 }
             }
+            // one octet inserted into / removed from the hashed subpacket area at every position,
+            // with the area length corrected (a structure-aware deviation: the result is a
+            // well-formed packet whose hashed area differs from what was signed)
+            if let Ok(d) = codec::decode_packet(2, &a.sig_body) {
+                if let Summary::Signature(si) = &d.summary {
+                    if si.version >= 4 && o.viol.is_empty() {
+                        let (hs, he) = si.hashed;
+                        let (ls, le) = si.hashed_len_field;
+                        let mut variants: Vec<(String, Vec<u8>)> = Vec::new();
+                        let set_len = |b: &mut Vec<u8>, n: usize| {
+                            let w = le - ls;
+                            let bytes = (n as u64).to_be_bytes();
+                            b[ls..le].copy_from_slice(&bytes[8 - w..]);
+                        };
+                        for p in hs..=he {
+                            for v in [0u8, 1, 2, 0x80, 0xFF] {
+                                let mut b = a.sig_body.clone();
+                                b.insert(p, v);
+                                set_len(&mut b, he - hs + 1);
+                                variants.push((format!("octet {v:#04x} inserted at offset {} of the hashed area (length field corrected)", p - hs), b));
+                            }
+                        }
+                        for p in hs..he {
+                            let mut b = a.sig_body.clone();
+                            b.remove(p);
+                            set_len(&mut b, he - hs - 1);
+                            variants.push((format!("octet at offset {} of the hashed area removed (length field corrected)", p - hs), b));
+                        }
+                        for (what, b) in variants {
+                            evals += 1;
+                            let Ok(sig) = sigs::sig_from_body(&b) else {
+                                rejected_at_parse += 1;
+                                continue;
+                            };
+                            if sigs::verify_default(&a, &sig, &c.spec.object).is_ok() && protected_view(&b) != orig_view {
+                                o.push(format!("C02:{name}:modified-signature-verifies"), ctx(format!("{what}: still verifies")));
+                                break;
+                            }
+                        }
+                    }
+                }
+            }
         }
         Target::KeyPacket => {
             // the verifying key (and for key-related signatures: the signed key) with one bit flipped
@@ -610,7 +652,7 @@ pub fn check(ctx: &Ctx) {
     ctx.run_space(
         "signature_artefacts",
         true,
-        "14 signature kinds x signer keys (quick 3, thorough 7; v4 and v6) x small objects: EVERY single-bit flip of the signature packet body, of the verifying key packet body, and of the signed content (plus every truncation and short extensions / prefixes), and substitution of 18 other keys as verifier and as signed key; each through the applicable verification API. A verdict is demanded only when the independent decoder finds the protected abstract value changed (content modulo text canonicalisation; type, algorithms, hashed area, salt, left-16, signature value with MPI normalisation; key version/time/algorithm/material); the unmodified artefact must verify. evaluations = verification attempts.",
+        "14 signature kinds x signer keys (quick 3, thorough 7; v4 and v6) x small objects: EVERY single-bit flip of the signature packet body (and one octet inserted into / removed from the hashed subpacket area at every position, area length corrected), of the verifying key packet body, and of the signed content (plus every truncation and short extensions / prefixes), and substitution of 18 other keys as verifier and as signed key; each through the applicable verification API. A verdict is demanded only when the independent decoder finds the protected abstract value changed (content modulo text canonicalisation; type, algorithms, hashed area, salt, left-16, signature value with MPI normalisation; key version/time/algorithm/material); the unmodified artefact must verify. evaluations = verification attempts.",
         ac.into_par_iter(),
         run_art,
     );
@@ -654,10 +696,30 @@ pub fn check(ctx: &Ctx) {
         cc.into_par_iter(),
         run_cert,
     );
+    ctx.run_space(
+        "cleartext_documents",
+        true,
+        "armored cleartext-signed documents (5 / 8 base texts incl. dash lines, trailing blank / TAB, lines ending in FF / NBSP; v4 and v6, one and two signers): every single-bit flip, every single-octet deletion and every insertion of one of 10 strings (dash, blank, LF, CR, TAB, letter, dash escape, FF, VT, NBSP) at every position of the Hash header and text section; if the library accepts the document and verifies it, an independent reader must see an unchanged RFC 9580 7.2 signed form",
+        crate::props::c16::tamper_cases(quick).into_par_iter(),
+        run_cleartext,
+    );
     ctx.assume("cryptographic malleability that is not a single-bit deviation (e.g. ECDSA (r, n-s)) is not enumerated");
 }
 
+/// Cleartext-signed documents: the single deviations of C16's adversary, judged by C02's rule
+/// (a document whose signed form changed must not verify).
+fn run_cleartext(c: &crate::props::c16::MutCase) -> Outcome {
+    let mut o = crate::props::c16::run_mut(c);
+    for v in &mut o.viol {
+        v.sig = v.sig.replace("C16:tamper:", "C02:cleartext:");
+    }
+    o
+}
+
 pub fn replay(space: &str, case: &Value) -> Option<Outcome> {
+    if space == "cleartext_documents" {
+        return replay_as(case, run_cleartext);
+    }
     match space {
         "signature_artefacts" => replay_as(case, run_art),
         "signed_messages" => replay_as(case, run_msg),
